@@ -5,6 +5,7 @@ import random
 
 from . import common as C
 from . import gen, solverlib
+from . import tabular as T
 
 GAMMAS = [[1, 4], [1, 2], [3, 4], [1, 1], [0, 1]]
 
@@ -28,6 +29,19 @@ def jobs_for(tier, rng):
                      "injects": [{"v": gen.rand_values(rng, ns, vmax=rng.choice([4, 9, 40]))}
                                  for _ in range(n_inj)],
                      "tag": f"inst{k}"})
+    # event probabilities that do not quite sum to one (a truncated distribution): the backup must use the
+    # problem's probabilities as they are.  The deficit must be small (about 1e-4) to look like truncation, hence
+    # PD = 16384; 32-bit model integers then leave room for one sweep from zero with rewards in {-1, 0, 1}
+    # (gamma = 1 keeps the denominator at PD).
+    for k in range(6 if tier == "quick" else 24):
+        m = T.random_mdp(rng, ns=rng.randint(4, 16), na=2, ne=rng.choice([2, 3]), PD=16384, rmax=1, v0max=0,
+                         plain_render=True)
+        for _ in range(rng.randint(2, 6)):
+            s_, a_ = rng.randrange(m["ns"]), rng.randrange(m["na"])
+            e_ = max(range(m["ne"]), key=lambda x: m["pk"][s_][a_][x])
+            m["pk"][s_][a_][e_] -= rng.choice([1, 1, 2])        # deficit of 1/16384 or 2/16384 (< 1e-4 / > 1e-4)
+        jobs.append({"mdp": m, "kind": "VI", "gamma": [1, 1], "eps": [1, 1], "test": "span", "calls": [1], "mbs": 1024,
+                     "tag": f"deficient{k}", "must_complete": True})
     # at scale: more states than the default max_batch_size of 1024 (several batches with the default configuration)
     for k in range(2 if tier == "quick" else 8):
         m = gen.union(rng, rng.randint(560, 640), PD=rng.choice([2, 4]), na=2, ne=2, rmax=3, v0max=2, plain=k % 2 == 0)
@@ -53,6 +67,11 @@ def run(tier):
         rep.violation("spec:BackupLaws " + ",".join(res.violated), {"tlc": res.out[-3000:]})
     jobs = jobs_for(tier, rng)
     j2, traces = solverlib.run_jobs(jobs)
+    for j, t in zip(j2, traces):
+        # anti-vacuity: these traces must reach the model with their sweep (not be cut by the 32-bit range guard)
+        if j.get("must_complete") and "crash" not in t and not any(e["e"] == "sweep" for e in t.get("ev", [])):
+            raise C.MachineryError(f"job {j.get('tag')} was meant to carry a sweep into the model but was truncated: "
+                                   f"{t.get('skip')}")
     solverlib.judge(rep, j2, traces, label="C02")
     for j, t in list(zip(j2, traces))[:3]:
         if "ev" in t:
